@@ -881,7 +881,11 @@ func (e *Env) call(x *ECall) Val {
 	case "ite":
 		cnd := e.boolT(x.Args[0])
 		a, b := e.unify(e.tr(x.Args[1]), e.tr(x.Args[2]))
-		return Val{T: ite(cnd, a.T, b.T), Ty: a.Ty}
+		r := ite(cnd, a.T, b.T)
+		if strings.HasPrefix(r, "(ite ") {
+			c.termSorts[r] = c.sortOf(a.Ty)
+		}
+		return Val{T: r, Ty: a.Ty}
 	case "min", "max":
 		a, b := e.unify(e.tr(x.Args[0]), e.tr(x.Args[1]))
 		op := token.LSS
@@ -1031,10 +1035,26 @@ func (e *Env) quant(x *EQuant) Val {
 		}
 	}
 	pat := ""
+	var bound []string
+	for _, v := range x.Vars {
+		bound = append(bound, ne.names[v.Name].T)
+	}
 	for _, tr := range x.Trigs {
 		var ts []string
 		for _, t := range tr {
-			ts = append(ts, ne.mat(ne.tr(t)).T)
+			tt := ne.mat(ne.tr(t)).T
+			// ite is not allowed in patterns: name closed ite subterms by fresh constants
+			for {
+				sub := findClosedIte(tt, bound)
+				if sub == "" {
+					break
+				}
+				k := c.fresh("itek", c.iteSort(sub, ne))
+				c.define(eq(k, sub))
+				tt = strings.ReplaceAll(tt, sub, k)
+				body = strings.ReplaceAll(body, sub, k)
+			}
+			ts = append(ts, tt)
 		}
 		pat += " :pattern (" + strings.Join(ts, " ") + ")"
 	}
@@ -1070,4 +1090,100 @@ func (e *Env) skolemize(x *EQuant) Val {
 	ne.skolem = true
 	body := ne.boolT(x.Body)
 	return Val{T: body, Ty: boolTy}
+}
+
+// findClosedIte returns an (ite ...) subterm of t that mentions no bound variable.
+func findClosedIte(t string, bound []string) string {
+	from := 0
+	for {
+		i := strings.Index(t[from:], "(ite ")
+		if i < 0 {
+			return ""
+		}
+		i += from
+		d := 0
+		inq := false
+		j := i
+		for ; j < len(t); j++ {
+			ch := t[j]
+			if ch == '|' {
+				inq = !inq
+			}
+			if inq {
+				continue
+			}
+			if ch == '(' {
+				d++
+			} else if ch == ')' {
+				d--
+				if d == 0 {
+					break
+				}
+			}
+		}
+		sub := t[i : j+1]
+		closed := true
+		for _, b := range bound {
+			if strings.Contains(sub, b) {
+				closed = false
+			}
+		}
+		if closed {
+			return sub
+		}
+		from = i + 5
+	}
+}
+
+func (c *FnCtx) iteSort(sub string, e *Env) string {
+	if srt, ok := c.termSorts[sub]; ok {
+		return srt
+	}
+	c.unsup("trigger contains an ite term of unknown sort: %s", sub)
+	return ""
+}
+
+func splitSexprs(s string) []string {
+	var out []string
+	d := 0
+	inq := false
+	start := -1
+	for i := 0; i < len(s); i++ {
+		ch := s[i]
+		if ch == '|' {
+			inq = !inq
+		}
+		if inq {
+			if start < 0 {
+				start = i
+			}
+			continue
+		}
+		switch ch {
+		case '(':
+			if d == 0 && start < 0 {
+				start = i
+			}
+			d++
+		case ')':
+			d--
+			if d == 0 {
+				out = append(out, s[start:i+1])
+				start = -1
+			}
+		case ' ', '\n':
+			if d == 0 && start >= 0 {
+				out = append(out, s[start:i])
+				start = -1
+			}
+		default:
+			if start < 0 {
+				start = i
+			}
+		}
+	}
+	if start >= 0 {
+		out = append(out, s[start:])
+	}
+	return out
 }
